@@ -2,6 +2,7 @@ package val
 
 import (
 	"reflect"
+	"strings"
 )
 
 func Equal(a Value, b Value) bool {
@@ -37,7 +38,10 @@ func EqualVals(a []Value, b []Value) bool {
 
 func CompareVals(a []Value, b []Value) int {
 	for i, v := range a {
-		c := v.(Comparable).Compare(b[i].(Comparable))
+		if i >= len(b) {
+			return 1
+		}
+		c := compareVal(v, b[i])
 		if c < 0 {
 			return c
 		}
@@ -46,6 +50,25 @@ func CompareVals(a []Value, b []Value) int {
 		}
 	}
 	return 0
+}
+
+// values that are missing come first, values without an order compare by their text
+func compareVal(a Value, b Value) int {
+	if a == nil || b == nil {
+		if a == nil && b == nil {
+			return 0
+		}
+		if a == nil {
+			return -1
+		}
+		return 1
+	}
+	ac, aok := a.(Comparable)
+	bc, bok := b.(Comparable)
+	if aok && bok {
+		return ac.Compare(bc)
+	}
+	return strings.Compare(a.String(), b.String())
 }
 
 type Reducer func(index int, v Value, data interface{}) interface{}
